@@ -193,6 +193,18 @@ def run_plan(plan, seed, choices=None):
     wrap('try_reconnect', 'attempt-done', after=True)       # (logged only when the probe succeeded) cancelled flag right before run() checks it
     wrap('on_reconnection', 'success')
     wrap('on_exception', 'exception', after=True)
+    remove_spans = []      # (host address, seq at entry, seq at return) of every Cluster.on_remove call
+    import functools
+    orig_on_remove = w.ccl.Cluster.on_remove
+
+    @functools.wraps(orig_on_remove)
+    def on_remove_span(self_, host):
+        s0 = sim.nlog
+        try:
+            return orig_on_remove(self_, host)
+        finally:
+            remove_spans.append((str(host.endpoint.address), s0, sim.nlog))
+    set_knob(w.ccl.Cluster, 'on_remove', on_remove_span)
     if plan.get('line_p') or plan.get('points') or plan.get('focus_stall'):
         C = w.ccl.Cluster
         sim.enable_line_preemption([C.on_up, C.on_down, C._start_reconnector, C.on_remove, C._on_up_future_completed,
@@ -378,8 +390,14 @@ def run_plan(plan, seed, choices=None):
         adds_after = lambda s: [e for e in rec if e[2] == 'add' and e[3] == addr and e[0] > s]
         for rm in removes:
             V.check('C25/no-reconnect-removed')
+            # the removal is complete when Cluster.on_remove returns (it tells the listeners first and cancels the reconnector last);
+            # an attempt that starts while it is still running is not "after the removal"
+            span = [sp for sp in remove_spans if sp[0] == addr and sp[1] <= rm[0] <= sp[2]]
+            rm_done = span[0][2] if span else rm[0]
+            if span and span[0][2] > rm[0] and any(k_ == 'attempt' and not x_ and rm[0] < s_ <= rm_done for (s_, t_, h_, a_, k_, x_) in by_host[addr]):
+                sim.probe('attempt_started_while_on_remove_was_running')
             for (seq, t, h, a, kind, extra) in by_host[addr]:
-                if kind == 'attempt' and not extra and seq > rm[0] + 0 and not adds_after(rm[0]):
+                if kind == 'attempt' and not extra and seq > rm_done and not adds_after(rm[0]):
                     # an attempt that was already connecting when the removal ran is not "started after"
                     # how did a removed host get a reconnector?  Known way: up handling (Cluster.on_up) that began before the removal - a
                     # STATUS_CHANGE UP event already scheduled, or a reconnection that had succeeded - completes after it: the removed host is
